@@ -4,7 +4,7 @@ from .common import NONE
 from .drivers_ragged import rnd_val, rnd_slice, BINARY, UNARY
 
 RLV = ["from_array", "from_array", "concat2", "concat3", "pieces", "ufunc", "astype", "derived", "derived2"]
-RL_DTS = ["b1", "i1", "u1", "i2", "i4", "i8", "i8", "u4", "u8", "f2", "f4", "f8"]
+RL_DTS = ["b1", "i1", "u1", "i2", "u2", "i4", "i8", "i8", "u4", "u8", "f2", "f4", "f8"]
 
 
 def rnd_runs(r, dt, n=None, nan_ok=True, small=False):
@@ -40,7 +40,7 @@ def gen_c14(r):
 
 
 def gen_c15(r):
-    dt = r.choice(["i8", "i8", "i2", "u1", "b1", "f8", "f4"])
+    dt = r.choice(["i8", "i8", "i2", "u2", "u1", "b1", "f8", "f4"])
     n = r.choice([1, 2, 3, 5, 8, 12])
     if r.random() < 0.06:
         n = r.choice([70, 100, 127, 128, 130, 140])        # beyond the range of 8-bit positions
@@ -69,7 +69,7 @@ def gen_c15(r):
                                         "idxdt": r.choice(["i8", "i8", "i1", "u1", "i2", "i4"])}, False
 
 
-C16_DTS = ["b1", "i1", "u1", "i2", "i8", "f4", "f8"]
+C16_DTS = ["b1", "i1", "u1", "i2", "i2", "u2", "i8", "f4", "f8"]
 
 
 def gen_c16(r):
@@ -182,6 +182,8 @@ def generate(prop, seed, n):
     out = []
     for i in range(n):
         case, opts, strict = GEN[prop](r)
+        if prop in ("C14", "C15", "C16", "C17"):
+            opts = dict(opts, hi=r.choice([0, 48, 48, 16]))          # the high-bits realisation, where exec_rl.hi_ok allows it
         out.append({"id": i, "case": case, "opts": opts, "strict": strict})
     return out
 
